@@ -274,6 +274,10 @@ def r_merge(ck: Checker) -> None:
     fin = [c for c in attr_calls(func, "update") if kwarg(c, "function") is not None]
     ck.add("a merged aggregate is a #sum", len(fin) == 1 and unparse(kwarg(fin[0], "function")) == "AggregateFunction.Sum", func, func.node, f"`{fmt(fin[0]) if fin else None}`", "")  # type: ignore[arg-type]
     for r in find_nodes(func.node, lambda n: isinstance(n, ast.Raise)):
+        if not it.reachable(r):
+            ck.add("min/max aggregates are never added", False, func, r, f"the refusal `{short(unparse(r), 70)}` can never fire: its test contradicts what is known there (it looks at an aggregate that was already checked)",
+                   "a #max operand that is not refused is merged into the #sum: its elements are added up instead of maximised")
+            continue
         ck.guard("min/max aggregates are never added", func, r, "collector.function in (AggregateFunction.Min, AggregateFunction.Max)" if enclosing_loop(func, r) is None else f"{elem_txt or 'aggs[index]'}.function in (AggregateFunction.Min, AggregateFunction.Max)", "")
     for c in ups:
         recv = c.func.value  # type: ignore[attr-defined]
